@@ -20,7 +20,7 @@
    no EAPI given = the newest PMS EAPI's features plus "::repo".
    One convention beyond the PMS text, shared with portage: "~" takes a version without revision.
 
-   The recogniser works from the outside in (USE block off the right end by the LAST "[",
+   The recogniser works from the outside in (USE block from the LAST "[" to a final "]",
    repository by the first "::", slot by the first ":"), and decides name/version by trying every
    hyphen as the boundary — it does not follow the chunk algorithm of cpv.py. *)
 From Coq Require Import List NArith ZArith Bool Arith.
@@ -150,19 +150,21 @@ Definition pms_use_dep (defaults : bool) (x : str) : bool :=
   use_dep_body defaults (fst (use_dep_split x)) (snd (use_dep_split x)).
 
 (* ---- 8.3.3 slot specification (text after the ":") *)
+(* the slot text without a trailing "=" *)
+Definition slot_strip_eq (s : str) : str :=
+  match rev s with
+  | l :: r => if l =? 61 then rev r else s
+  | [] => s
+  end.
 Definition pms_slot_spec (f : features) (s : str) : bool :=
   f_slot f &&
   (pms_slot_name s
    || (f_subslot f &&
        ( str_eqb s [42] || str_eqb s [61]
-         || (let body := match rev s with
-                         | l :: r => if l =? 61 then rev r else s
-                         | [] => s
-                         end in
-             match split_first 47 body with
-             | Some (a, b) => pms_slot_name a && pms_slot_name b
-             | None => pms_slot_name body
-             end)))).
+         || match split_first 47 (slot_strip_eq s) with
+            | Some (a, b) => pms_slot_name a && pms_slot_name b
+            | None => pms_slot_name (slot_strip_eq s)
+            end))).
 
 (* ---- 8.3.1 operator + category/name[-version] *)
 Definition pms_unversioned (s : str) : bool :=
@@ -211,20 +213,23 @@ Definition pms_blocker_rest (f : features) (s : str) : bool :=
   end.
 
 (* ---- the atom *)
-Definition pms_atom_feat (f : features) (s : str) : bool :=
-  (* USE block: present iff the text ends in "]" *)
-  let s1_ok :=
-    match rev s with
-    | l :: r =>
-        if l =? 93 then
-          match split_last 91 (rev r) with
-          | Some (pre, u) => (pre, f_use f && forallb (pms_use_dep (f_defaults f)) (split_on 44 u))
-          | None => (s, false)
-          end
-        else (s, true)
-    | [] => (s, true)
-    end in
-  let s1 := fst s1_ok in
+(* USE block: present iff a "[" occurs; it starts at the LAST "[" and must end the text with "]".
+   Result: the text left of the block, and whether the block is acceptable. *)
+Definition use_split (f : features) (s : str) : str * bool :=
+  match split_last 91 s with
+  | Some (pre, rest) =>
+      match rev rest with
+      | l :: ru =>
+          if l =? 93
+          then (pre, f_use f && forallb (pms_use_dep (f_defaults f)) (split_on 44 (rev ru)))
+          else (s, false)
+      | [] => (s, false)
+      end
+  | None => (s, true)
+  end.
+
+(* everything left of the USE block: [!|!!] [op] cpv [":" slotspec] ["::" repo] *)
+Definition spec_tail (f : features) (s1 : str) : bool :=
   (* ::repo, only where the extension is allowed *)
   let s2_ok :=
     if f_repo f then
@@ -233,13 +238,15 @@ Definition pms_atom_feat (f : features) (s : str) : bool :=
       | None => (s1, true)
       end
     else (s1, true) in
-  let s2 := fst s2_ok in
   let s3_ok :=
-    match split_first 58 s2 with
+    match split_first 58 (fst s2_ok) with
     | Some (pre, sl) => (pre, pms_slot_spec f sl)
-    | None => (s2, true)
+    | None => (fst s2_ok, true)
     end in
-  snd s1_ok && snd s2_ok && snd s3_ok && pms_blocker_rest f (fst s3_ok).
+  snd s2_ok && snd s3_ok && pms_blocker_rest f (fst s3_ok).
+
+Definition pms_atom_feat (f : features) (s : str) : bool :=
+  snd (use_split f s) && spec_tail f (fst (use_split f s)).
 
 Definition pms_atom_b (eapi : option N) (s : str) : bool :=
   match features_of eapi with
